@@ -4,7 +4,7 @@ one literal token of the target engine decoding to exactly the supplied value).
 Which body a backend runs is read from /repo at extraction time: the `impl EscapeBuilder for X` /
 `impl QueryBuilder for X` block if it defines the method, else the trait's default body.
 """
-import os
+import os, re
 from vlib import rustlex as rl
 from vlib.gen import make_r_fmt, make_r_sub, make_r_tailbind, r_unit_tail, r_dynw
 
@@ -20,6 +20,13 @@ r_fmt = make_r_fmt(wmap=lambda w: w if w == "buffer" else "&mut " + w)
 r_replace_c = make_r_sub("R-strfn", r"\.replace\(\s*'", ".vreplace_c('")
 r_replace_s2 = make_r_sub("R-strfn", r"\.replace\(\s*\"", ".vreplace_s2(\"")
 r_tail = make_r_tailbind()
+# `x.find(<char>).is_some()` / `x.find([<char>, ..]).is_some()` / `x.contains(<char>)`: the text contains (one of) the character(s)
+CHAR_LIT = r"'(?:\\.|[^'\\])'"
+FIND_RX = r"(\w+)\.(?:find\(\s*(%s|\[\s*%s(?:\s*,\s*%s)*\s*,?\s*\])\s*\)\.is_some\(\)|contains\(\s*(%s)\s*\))" % (CHAR_LIT, CHAR_LIT, CHAR_LIT, CHAR_LIT)
+def r_find_some(m):
+    cs = re.findall(CHAR_LIT, m.group(2) or m.group(3))
+    t = " || ".join("%s.vcontains_c(%s)" % (m.group(1), c) for c in cs)
+    return t if len(cs) == 1 else "(" + t + ")"
 
 
 def resolve(u, trait, ty, fn, trait_file, impl_file):
@@ -164,7 +171,7 @@ def build_c03(u, ty, files):
     else:
         # Postgres override: E'..' when the escaped text contains a backslash, plain '..' otherwise
         u.fn(path, blk, "write_string_quoted", key=key, vpath=ty + "::write_string_quoted", props=P, spec=spec,
-             rules=[make_r_sub("R-strfn", r"escaped\.find\('\\\\'\)\.is_some\(\)", lambda m: "escaped.vcontains_c('\\\\')"),
+             rules=[make_r_sub("R-strfn", FIND_RX, r_find_some),
                     make_r_sub("R-strfn", r'"(E?\')"\.to_owned\(\) \+ &escaped \+ "\'"', lambda m: 'vstr_concat3("%s", &escaped, "\'")' % m.group(1), min_count=2),
                     r_fmt, r_unit_tail],
              proofs={"body-start": "let ghost s0 = string@; let ghost b0 = buffer@;",
